@@ -1209,8 +1209,19 @@ impl PhysicalOperator for HashJoinExec {
                 }
 
                 // Skip expensive generic hash table build when vectorized or i64 fast path is available
-                let hash_table = if vectorized_ht.is_some()
-                    || (i64_hash_table.is_some() && can_skip_generic_ht)
+                // A filtered Semi/Anti probe needs candidate lists. When the
+                // vectorized table cannot serve point lookups (string or
+                // multi-column keys) and no i64 map exists, the generic table
+                // is the only source of candidates — skipping it made every
+                // such join see no match at all.
+                let filtered_semi_anti_needs_generic =
+                    matches!(self.join_type, JoinType::Semi | JoinType::Anti)
+                        && self.filter.is_some()
+                        && !vht_serves_semi_anti
+                        && i64_hash_table.is_none();
+                let hash_table = if !filtered_semi_anti_needs_generic
+                    && (vectorized_ht.is_some()
+                        || (i64_hash_table.is_some() && can_skip_generic_ht))
                 {
                     HashMap::new()
                 } else {
@@ -2291,7 +2302,11 @@ fn probe_semi_anti_parallel(
                                         .store(true, Ordering::Relaxed);
                                 }
                             }
-                            pass
+                            // One match settles a PROBE row (swapped: the
+                            // probe side is the output). Unswapped, every
+                            // qualifying BUILD row is an output row, so keep
+                            // walking the candidates.
+                            pass && swapped
                         });
                         continue;
                     }
@@ -2325,7 +2340,9 @@ fn probe_semi_anti_parallel(
                                         build_matched[entry.batch_idx][entry.row_idx]
                                             .store(true, Ordering::Relaxed);
                                     }
-                                    break;
+                                    if swapped {
+                                        break;
+                                    }
                                 }
                             } else if let Some(filter_expr) = filter {
                                 let build_row_batch = create_single_row_combined_batch(
@@ -2350,7 +2367,9 @@ fn probe_semi_anti_parallel(
                                             build_matched[entry.batch_idx][entry.row_idx]
                                                 .store(true, Ordering::Relaxed);
                                         }
-                                        break;
+                                        if swapped {
+                                            break;
+                                        }
                                     }
                                 }
                             } else {
@@ -3224,8 +3243,14 @@ fn probe_hash_table(
         }
     }
 
-    // Use parallel path for SEMI/ANTI joins with sufficient data
-    if matches!(join_type, JoinType::Semi | JoinType::Anti) && total_probe_rows > 1000 {
+    // Use parallel path for SEMI/ANTI joins with sufficient data. A FILTERED
+    // Semi/Anti join takes it at every size: when the vectorized table can
+    // serve i64 point lookups the build skips both the i64 map and the
+    // generic hash table (see `i64_needed`), so the generic loop below would
+    // probe an empty table and find no candidate at all.
+    if matches!(join_type, JoinType::Semi | JoinType::Anti)
+        && (total_probe_rows > 1000 || (filter.is_some() && vectorized_ht.is_some()))
+    {
         return probe_semi_anti_parallel(
             build_batches,
             probe_batches,
